@@ -2,10 +2,12 @@
    oracles stay available when a source change breaks translation or the model. *)
 From Coq Require Import ZArith List.
 From Coq Require Extraction ExtrOcamlBasic.
-From WS Require Import Base.Res Base.Bytes Spec.Utf8 Spec.Frame Spec.Legal Proofs.FastOracle.
+From WS Require Import Base.Res Base.Bytes Spec.Utf8 Spec.Frame Spec.Legal Spec.HttpReq Spec.AppTrace Proofs.FastOracle.
 Extraction Language OCaml.
 Extraction "core_spec.ml"
   exn_eqb is_ok Z.add Z.mul Z.div Z.modulo Z.opp Z.abs Z.of_nat Z.to_nat Z.eqb Z.ltb
   wf_utf8 utf8_encode
   decode_fast decode_all_fast encode_fast
-  frame_verdict seq_ok seq_next legal_seq reassemble per_fragment pongs_owed close_code.
+  frame_verdict seq_ok seq_next legal_seq reassemble per_fragment pongs_owed close_code
+  response_accepts parse_request header_values host_header
+  items close_info.
